@@ -250,7 +250,27 @@ func (g *gen) scenario(n int, big bool) []op {
 
 // scenarioW: reopenPct is the share of reopen ops (a high share makes leveldb compact its tables).
 func (g *gen) scenarioW(n int, big bool, reopenPct int) []op {
-	pool := g.keyPool(big)
+	return g.scenarioP(g.keyPool(big), n, big, reopenPct)
+}
+
+// manyKeysPool: several hundred keys (dense families under a few prefixes, plus the usual ones), so
+// that range scans return hundreds of rows and a flush moves hundreds of rows.
+func (g *gen) manyKeysPool() [][]byte {
+	pool := g.keyPool(false)
+	n := 300 + g.rnd.Intn(400)
+	prefixes := [][]byte{g.randBytes(1), g.randBytes(2), []byte("have:"), {0xff}, {}}
+	seen := map[string]bool{}
+	for len(pool) < n {
+		k := cat(prefixes[g.rnd.Intn(len(prefixes))], g.randBytes(1+g.rnd.Intn(3)))
+		if !seen[string(k)] {
+			seen[string(k)] = true
+			pool = append(pool, k)
+		}
+	}
+	return pool
+}
+
+func (g *gen) scenarioP(pool [][]byte, n int, big bool, reopenPct int) []op {
 	key := func() []byte { return pool[g.rnd.Intn(len(pool))] }
 	var ops []op
 	for i := 0; i < n; i++ {
@@ -337,7 +357,7 @@ func (g *gen) bigBatch(pool [][]byte, n int) []mut {
 		switch x := g.rnd.Intn(100); {
 		case x < 38:
 			ms = append(ms, mut{del: true, k: k})
-		case x < 45: // oversize value on a hot key: skipped
+		case x < 40: // oversize value on a hot key: skipped (rare: 63001 bytes are costly on both sides)
 			ms = append(ms, mut{k: k, v: bytes.Repeat([]byte{byte(j)}, sorted.MaxValueSize+1)})
 		case x < 50: // oversize key: skipped
 			ms = append(ms, mut{k: cat(k, bytes.Repeat([]byte{0xff}, sorted.MaxKeySize+1-len(k))), v: []byte{byte(j)}})
@@ -346,6 +366,14 @@ func (g *gen) bigBatch(pool [][]byte, n int) []mut {
 		}
 	}
 	return ms
+}
+
+// Shuffle is not part of hk.Rand: a local Fisher-Yates on mutations.
+func shuffleMuts(rnd *hk.Rand, ms []mut) {
+	for i := len(ms) - 1; i > 0; i-- {
+		j := rnd.Intn(i + 1)
+		ms[i], ms[j] = ms[j], ms[i]
+	}
 }
 
 func sizeBucket(n int) string {
@@ -451,6 +479,12 @@ func (g *gen) do(o op) {
 		r.Fail(g.impl+":"+o.name, "answer differs from the reference map: "+short(line), short(want), short(out), r.CaseOps())
 	}
 	switch o.name {
+	case "find":
+		if f := strings.Fields(out); len(f) >= 2 && f[0] == "rows" {
+			if n, err := strconv.Atoi(f[1]); err == nil && n > 12 {
+				r.Hit("find:rows:" + sizeBucket(n) + ":" + g.impl)
+			}
+		}
 	case "batch":
 		r.Hit("batch:" + g.impl)
 		g.batchHits(o)
@@ -669,7 +703,7 @@ func (g *gen) malformedCase(c implCfg) {
 func Run(r *hk.Run) {
 	defer Cleanup()
 	g := &gen{r: r, rnd: r.R}
-	r.Res.Rule = "a scenario is a random sequence of get/set/del/batch/find/flush/reopen/dump over a small key universe with batches of 0-6 and of 11-400 mutations (the large ones over 1-5 hot keys with conflicting set/delete successions and interleaved oversize sets) (one random base with its 0x00/0xff/'|'/':' extensions and prefixes, the empty key, index-like keys; in 'big' scenarios also 766/767/768-byte keys and 62999/63000/63001-byte values); every scenario is run as one case on each of mem, leveldb, kvfile, sqlite, buffer(mem,mem) with maxBuffer -1, 0, 40 and 1000000, and buffer(mem, leveldb|kvfile|sqlite); reopen-heavy scenarios (25% reopen) make leveldb compact; each answer is compared with the Lean model (correspondence) and with a reference map (oracle). distinct = distinct (implementation, op sequence) with at least 2 mutations and 2 reads"
+	r.Res.Rule = "a scenario is a random sequence of get/set/del/batch/find/flush/reopen/dump over a small key universe with batches of 0-6 and of 11-400 mutations (the large ones over 1-5 hot keys with conflicting set/delete successions and interleaved oversize sets) (one random base with its 0x00/0xff/'|'/':' extensions and prefixes, the empty key, index-like keys; in 'big' scenarios also 766/767/768-byte keys and 62999/63000/63001-byte values); every scenario is run as one case on each of mem, leveldb, kvfile, sqlite, buffer(mem,mem) with maxBuffer -1, 0, 40 and 1000000, and buffer(mem, leveldb|kvfile|sqlite); reopen-heavy scenarios (25% reopen) make leveldb compact; many-keys scenarios hold 300-700 rows; each answer is compared with the Lean model (correspondence) and with a reference map (oracle). distinct = distinct (implementation, op sequence) with at least 2 mutations and 2 reads"
 
 	cfgs := []implCfg{{"mem", ""}, {"leveldb", ""}, {"kvfile", ""}, {"sqlite", ""},
 		{"buffer", "-1"}, {"buffer", "0"}, {"buffer", "40"}, {"buffer", "1000000"},
@@ -736,7 +770,7 @@ func Run(r *hk.Run) {
 
 	nScen, nOps, nBig := 120, 45, 30
 	if r.Thorough() {
-		nScen, nOps, nBig = 1500, 70, 300
+		nScen, nOps, nBig = 800, 70, 160
 	}
 	for i := 0; i < nScen+nBig; i++ {
 		big := i >= nScen
@@ -755,6 +789,38 @@ func Run(r *hk.Run) {
 			}
 			r.Sample(map[string]any{"kind": label, "first_ops": ls})
 		}
+	}
+
+	// many keys: a store of several hundred rows, filled by large batches of distinct keys
+	nMany := 3
+	if r.Thorough() {
+		nMany = 24
+	}
+	for i := 0; i < nMany; i++ {
+		pool := g.manyKeysPool()
+		var ops []op
+		for at := 0; at < len(pool); {
+			k := 13 + g.rnd.Intn(300)
+			if at+k > len(pool) {
+				k = len(pool) - at
+			}
+			var ms []mut
+			for _, key := range pool[at : at+k] {
+				ms = append(ms, mut{k: key, v: g.value(false)})
+			}
+			shuffleMuts(g.rnd, ms)
+			ops = append(ops, op{name: "batch", muts: ms})
+			at += k
+			if g.rnd.Chance(30) {
+				ops = append(ops, op{name: "find", a: g.bound(pool), b: g.bound(pool)})
+			}
+		}
+		ops = append(ops, op{name: "find"}, op{name: "dump"})
+		ops = append(ops, g.scenarioP(pool, 40+g.rnd.Intn(40), false, 6)...)
+		for _, c := range cfgs {
+			g.runCase(fmt.Sprintf("many-keys-%d", i), c, ops)
+		}
+		g.r.Hit("many-keys:pool-" + sizeBucket(len(pool)))
 	}
 
 	nHeavy := 6
